@@ -209,10 +209,16 @@ def build(spec):
     mans = [mkman(m, spec["date"]) for m in spec["mans"]]
     if len(mans) == 1 and spec.get("man_as") == "ctor":
         meta["maneuvers"] = mans[0]
+    form0, frame0 = "cartesian", spec["frame"]
+    if spec.get("ctor_objects"):
+        from beyond.frames.frames import get_frame
+        from beyond.orbits.forms import get_form
+
+        form0, frame0 = get_form(form0), get_frame(frame0)
     if spec["klass"] == "Orbit":
-        o = Orbit(coords, date, "cartesian", spec["frame"], mkprop(spec["prop"]), **meta)
+        o = Orbit(coords, date, form0, frame0, mkprop(spec["prop"]), **meta)
     else:
-        o = StateVector(coords, date, "cartesian", spec["frame"], **meta)
+        o = StateVector(coords, date, form0, frame0, **meta)
     if isinstance(coords, np.ndarray):
         # the caller goes on using its array: the object must not follow
         before = np.array(o, dtype=float).tobytes()
@@ -623,6 +629,15 @@ class Machine:
                     # not usable as a pool member: later ops on it would only repeat this failure
                     self.pop_member()
                     touched.discard(n)
+            elif name == "read_infos":
+                # reading .infos builds and caches an Infos object: it must describe the state as it is NOW
+                # (whatever was read, copied or assigned before) and leave everything else alone
+                kep = np.array(o.infos.kep, dtype=float)
+                want = np.array(rebuild(dict(s, cov=None), self.dates[i]).copy(form="keplerian"), dtype=float)
+                if not self.ratio(S.rel_err(kep, want, np.where(np.abs(want) < 10.0, 1.0, 0.0), (3, 4, 5)), CLONE_TOL):
+                    self.add("infos-stale", f"object {i}.infos.kep = {kep.tolist()}, the state is {want.tolist()}")
+                touched.add(i)
+                self.compare_touched(i, dict(s))
             elif name == "late_frame":
                 # a frame registered after every member (and clone) was made is reachable from all of them
                 fname = late_frame()
@@ -713,7 +728,12 @@ class Machine:
                 k = op["k"]
                 cur = S.coords_of(s).copy()
                 v = cur[k] * op["factor"] if cur[k] != 0 and np.isfinite(cur[k]) else 1e-3
-                vt = op.get("vtype", "float")
+                tie = op.get("tie")
+                if tie == "same":
+                    v = cur[k]
+                elif tie in ("zero-angle", "full-turn") and k in S.ANGLE_IDX[s["form"]]:
+                    v = 0.0 if tie == "zero-angle" else 2 * np.pi
+                vt = op.get("vtype", "float") if tie is None else "float"
                 if vt == "numpy.float32":
                     given = np.float32(v)
                 elif vt == "numpy.float64":
